@@ -21,7 +21,7 @@ From SK Require Import lib.Tok lib.LGraph model.C03_Model proof.C03_Spec proof.C
                        proof.C03_Link proof.C03_Default proof.C03_Iso
                        proof.C03_Skeleton proof.C03_StripCounts
                        proof.C03_Wiring proof.C03_WiringCount proof.C03_PairIds proof.C03_StripExact proof.C03_StripCor
-                       proof.C03_PairIdsComplete proof.C03_Wrap.
+                       proof.C03_PairIdsComplete proof.C03_Wrap proof.C03_DefaultBalance.
 Import ListNotations.
 Local Open Scope Z_scope.
 
@@ -305,6 +305,31 @@ Theorem C03_sum_cnt_adjacent : forall (sn : inode -> nattr) (se : iedge -> Z) (t
   = Z.of_nat (length (filter (fun h => match adj tpl k h with Some x => 0 <? se x | None => false end) R)).
 Proof. exact sum_cnt_adjacent. Qed.
 Print Assumptions C03_sum_cnt_adjacent.
+
+(** clause (b) in the default mode, from the template: the total hydrogen change of the prepared rule is the number of
+    right-side bonds minus the number of left-side bonds between the removed hydrogens R and the kept non-hydrogen
+    atoms K; it is 0 — and then, by [C03_conserve] / [C03_explicit_path], every proposed reaction conserves hydrogen —
+    as soon as every removed hydrogen has as many such bonds on the right as on the left (one and one in ordinary
+    templates) *)
+Theorem C03_default_rule_dH : forall (tpl rc : its) (l r : molg),
+  nodupb (node_ids tpl) = true -> (forall (k : N) (a : inode), In (k, a) (gnodes tpl) -> a_el (iH a) = a_el (iG a)) ->
+  simple_edgesb (gedges tpl) = true -> synrule tpl true = Some (rc, l, r) ->
+  exists R K : list N,
+    (forall h : N, In h R <-> is_H_i tpl h = true /\ heavy_nbr (side0 iG eG tpl) h = true /\ heavy_nbr (side0 iH eH tpl) h = true) /\
+    (forall k : N, In k K <-> In k (node_ids tpl) /\ is_H_i tpl k = false) /\
+    sumZ dH rc = fold_right (fun h acc => (countZ (fun k => bonded eH tpl k h) K - countZ (fun k => bonded eG tpl k h) K) + acc) 0 R.
+Proof. exact default_rule_dH. Qed.
+Print Assumptions C03_default_rule_dH.
+
+Theorem C03_default_rule_H_balanced : forall (tpl rc : its) (l r : molg),
+  nodupb (node_ids tpl) = true -> (forall (k : N) (a : inode), In (k, a) (gnodes tpl) -> a_el (iH a) = a_el (iG a)) ->
+  simple_edgesb (gedges tpl) = true -> synrule tpl true = Some (rc, l, r) ->
+  exists R K : list N,
+    (forall h : N, In h R <-> is_H_i tpl h = true /\ heavy_nbr (side0 iG eG tpl) h = true /\ heavy_nbr (side0 iH eH tpl) h = true) /\
+    (forall k : N, In k K <-> In k (node_ids tpl) /\ is_H_i tpl k = false) /\
+    ((forall h : N, In h R -> countZ (fun k => bonded eH tpl k h) K = countZ (fun k => bonded eG tpl k h) K) -> sumZ dH rc = 0).
+Proof. exact default_rule_H_balanced. Qed.
+Print Assumptions C03_default_rule_H_balanced.
 
 (** ... and therefore, in default mode, the changed bonds of every proposed ITS (before _explicit_h re-materialises the
     migrating hydrogens) are exactly the images of the template's changed bonds that touch no stripped hydrogen *)
